@@ -779,6 +779,15 @@ def _check_silent(self, cond):
 Engine.check_silent = _check_silent
 
 
+def fx(v):
+    """v if it is not symbolic or not forced to one value by the path condition, else that value (int)."""
+    if isinstance(v, SymInt) and ENG is not None and ENG.concrete is None:
+        r = ENG.fixed(v.t)
+        if r is not None:
+            return float(r) if v.isfloat else r
+    return v
+
+
 def implied(c):
     """True iff bool/SymBool c is implied by the current path condition (no fork)."""
     if isinstance(c, bool):
